@@ -21,9 +21,10 @@
      initiator sends Logon(98=0, 108=30);
    * `ASend s` is the application of side s calling send_msg with a fresh application message
      (35=D, 58=m<id>); the call is ACCEPTED when it returns without exception;
-   * `ASendFail s` is the same call on a transport that has just died: write()/drain() raise, so
-     the number is allocated but nothing is journaled or transmitted, the call is not accepted,
-     and the break follows at once.
+   * `ASendFail s` is the same call on a transport that has just died: write()/drain() raise AFTER
+     the message was journaled under its number (send_msg journals first): the caller sees an
+     exception, nothing is transmitted, the break follows at once; such a send is COMMITTED
+     (see do_send) and must be delivered after the recovery like an accepted one.
    Timers (heartbeat, TestRequest, the 1.5 x heartbeat reconnect delay) and byte-level reassembly
    are outside this model. *)
 From Coq Require Import ZArith NArith List Bool.
@@ -68,7 +69,7 @@ Record net := mkNet {
   ba : list msg;                 (* frames in flight B -> A *)
   ga : list (option str);        (* Text(58) of what on_message of A was handed, in order *)
   gb : list (option str);
-  sa : list str;                 (* payloads of A's application sends that were accepted, in order *)
+  sa : list str;                 (* payloads of A's application sends that were accepted / committed, in order *)
   sb : list str;
   nid : Z                        (* next fresh payload id *)
 }.
@@ -136,6 +137,9 @@ Definition do_break (n : net) : net :=
   let n3 := apply_res SB (disconnect cfgB ST_DISC_BROKEN None (wb n2)) n2 in
   clear_chans n3.
 
+(* A send is COMMITTED when the call returned (accepted) or when it raised from the dead transport AFTER the
+   message had been journaled (send_msg journals before it writes): the caller saw an exception, the session
+   layer owns the message and the peer's ResendRequest recovers it.  `sa` / `sb` list the committed sends. *)
 Definition do_send (s : side) (fail : bool) (n : net) : net :=
   let id := nid n in
   let w := world_of s n in
@@ -143,7 +147,9 @@ Definition do_send (s : side) (fail : bool) (n : net) : net :=
   let n1 := bump (apply_res s r n) in
   match rv r with
   | inl _ => accepted s (payload id) n1
-  | inr _ => n1
+  | inr _ =>
+      if fail && (length (j_out (jr w)) <? length (j_out (jr (rw r))))%nat
+      then accepted s (payload id) n1 else n1
   end.
 
 (* something is waiting to be read by side s *)
